@@ -89,6 +89,11 @@ pub fn gen_step(rng: &mut Rng, i: usize, s: &State, flavour: Flavour, max_steps:
                 return Some(Step::RemoveAnyDart(*rng.pick(&bad)));
             }
         }
+        // the transactional removal (what the kernels use), on a free in-use dart
+        if rng.chance(0.15) && !free.is_empty() && g.in_use.len() > 3 {
+            let d = *rng.pick(&free);
+            return Some(Step::Tx(crate::ops::Tx { runner: crate::ops::Runner::WithErr, ops: vec![crate::ops::Op::RemoveDartTx { d }], f1: vec![], f2: vec![], f1_attempt: 0 }));
+        }
         return Some(match rng.below(6) {
             0 => Step::AddFreeDart,
             1 => Step::AddFreeDarts(1 + rng.below(5) as u32),
